@@ -507,4 +507,239 @@ Section PSC.
     - apply cmem_In. apply filter_In. split; [exact Hx|exact E].
     - apply cmem_nIn. intros H. apply filter_In in H. destruct H as [_ H]. congruence.
   Qed.
+
+  (* ================================================================ subtracting the quotas of the elected *)
+  Definition sumS (el : list (C * Q)) : Q :=
+    fold_right (fun ca acc => (if cmem (fst ca) SS then snd ca else 0) + acc) 0 el.
+
+  Lemma gregory_subtract_in p amt p' b w : gregory_subtract p amt = Some p' -> In (b, w) p' -> exists w1, In (b, w1) p.
+  Proof.
+    unfold gregory_subtract. destruct (Qeq_bool (pile_sum p) 0); [discriminate|].
+    destruct (Qle_bool (pile_sum p) amt); [intros [= <-] []|].
+    intros [= <-] Hin. apply in_map_iff in Hin. destruct Hin as ([b1 w1] & Heq & Hin). injection Heq as -> _.
+    exists w1. exact Hin.
+  Qed.
+
+  Lemma replace_get_other (a : alloc) c p' c0 : c0 <> c ->
+    alloc_get (map (fun kp : option C * pile => if okey_eqb (Some c) (fst kp) then (fst kp, p') else kp) a) (Some c0)
+    = alloc_get a (Some c0).
+  Proof.
+    intros Hne. induction a as [|[k q] a IHa]; cbn -[okey_eqb]; [reflexivity|].
+    destruct (okey_eqb (Some c) k) eqn:E; cbn -[okey_eqb].
+    - apply okey_eqb_eq in E. subst k.
+      assert (okey_eqb (Some c0) (Some c) = false) as -> by (apply not_true_iff_false; rewrite okey_eqb_eq; congruence).
+      exact IHa.
+    - destruct (okey_eqb (Some c0) k); [reflexivity|exact IHa].
+  Qed.
+
+  Lemma replace_nonneg (a : alloc) c p' : alloc_nonneg a -> pile_nonneg p' ->
+    alloc_nonneg (map (fun kp : option C * pile => if okey_eqb (Some c) (fst kp) then (fst kp, p') else kp) a).
+  Proof.
+    unfold alloc_nonneg. intros Ha Hp'. induction Ha as [|[k q0] a Hq Ha IHa]; cbn -[okey_eqb]; [constructor|].
+    constructor; [|exact IHa]. destruct (okey_eqb (Some c) k); simpl; assumption.
+  Qed.
+
+  Theorem subtract_psc K elected : forall a a', NoDup (akeys a) -> alloc_nonneg a ->
+    (forall c amt, In (c, amt) elected -> 0 <= amt) ->
+    NoDup (map fst elected) ->
+    (forall c amt p, In (c, amt) elected -> alloc_get a (Some c) = Some p -> amt <= wsum p) ->
+    BB K a ->
+    subtract a elected = Some a' ->
+    cwa a - sumS elected <= cwa a' /\ BB K a'.
+  Proof.
+    induction elected as [|[c amt] t IH]; intros a a' Hnd Hnn Hpos Hd Hle HB; simpl.
+    - intros [= <-]. split; [lra|exact HB].
+    - destruct (alloc_get a (Some c)) as [p|] eqn:Eg; [|discriminate].
+      destruct (gregory_subtract p amt) as [p'|] eqn:Es; [|discriminate]. intros Hsub.
+      destruct (replace_pile_sum a c p p' Hnd Eg) as [_ H2].
+      pose proof (cwa_replace a c p p' Hnd Eg) as H1.
+      set (a1 := map (fun kp : option C * pile => if okey_eqb (Some c) (fst kp) then (fst kp, p') else kp) a) in *.
+      inversion Hd as [|? ? Hc Hd']; subst.
+      pose proof (alloc_get_nonneg a _ p Hnn Eg) as Hp.
+      pose proof (gregory_subtract_nonneg p amt p' Hp (Hpos c amt (or_introl eq_refl)) Es) as Hp'.
+      destruct (IH a1 a') as [H3 H4].
+      + unfold akeys in *. rewrite H2. exact Hnd.
+      + apply replace_nonneg; assumption.
+      + intros c0 amt0 Hin. apply (Hpos c0). right. exact Hin.
+      + exact Hd'.
+      + intros c0 amt0 p0 Hin Hg0. apply (Hle c0 amt0 p0); [right; exact Hin|].
+        unfold a1 in Hg0. rewrite replace_get_other in Hg0; [exact Hg0|].
+        intros ->. apply Hc. apply in_map_iff. exists (c, amt0). split; [reflexivity|exact Hin].
+      + intros c0 p0 b w Hin Hb Hs. unfold a1 in Hin. apply in_map_iff in Hin. destruct Hin as ([k pk] & Heq & Hin).
+        cbn -[okey_eqb] in Heq. destruct (okey_eqb (Some c) k) eqn:E.
+        * apply okey_eqb_eq in E. subst k. injection Heq as <- <-.
+          destruct (gregory_subtract_in p amt p' b w Es Hb) as (w1 & Hw1).
+          apply (HB c p b w1); [apply alloc_get_in, Eg|exact Hw1|exact Hs].
+        * injection Heq as -> ->. apply (HB c0 p0 b w Hin Hb Hs).
+      + exact Hsub.
+      + split; [|exact H4].
+        pose proof (cwp_gregory p amt p' Hp (Hpos c amt (or_introl eq_refl)) (Hle c amt p (or_introl eq_refl) Eg) Es) as Hg.
+        cbn [fst snd]. destruct (cmem c SS); lra.
+  Qed.
+
+  (* ================================================================ counting members of SS *)
+  Definition cnt (l : list C) : nat := length (filter (fun c => cmem c SS) l).
+
+  Lemma cnt_app l1 l2 : cnt (l1 ++ l2) = (cnt l1 + cnt l2)%nat.
+  Proof. unfold cnt. rewrite filter_app, app_length. reflexivity. Qed.
+
+  Lemma filter_partition_length {X} (f : X -> bool) (l : list X) :
+    (length (filter f l) + length (filter (fun c => negb (f c)) l) = length l)%nat.
+  Proof. induction l as [|x l IH]; simpl; [reflexivity|]. destruct (f x); simpl; lia. Qed.
+
+  Lemma cnt_split l e : NoDup l -> NoDup e -> incl e l ->
+    (cnt (filter (fun c => negb (cmem c e)) l) + cnt e = cnt l)%nat.
+  Proof.
+    intros Hl He Hi. unfold cnt.
+    pose proof (filter_partition_length (fun c => cmem c e) (filter (fun c => cmem c SS) l)) as G1.
+    cbv beta in G1.
+    assert (G2 : length (filter (fun c => cmem c e) (filter (fun c => cmem c SS) l)) = length (filter (fun c => cmem c SS) e)).
+    { apply Nat.le_antisymm; apply NoDup_incl_length.
+      - apply NoDup_filter_c, NoDup_filter_c, Hl.
+      - intros x Hx. apply filter_In in Hx. destruct Hx as [Hx H1]. apply filter_In in Hx. destruct Hx as [_ H2].
+        apply filter_In. split; [apply cmem_In, H1|exact H2].
+      - apply NoDup_filter_c, He.
+      - intros x Hx. apply filter_In in Hx. destruct Hx as [H1 H2]. apply filter_In. split; [|apply cmem_In, H1].
+        apply filter_In. split; [apply Hi, H1|exact H2]. }
+    rewrite (filter_filter (fun c => cmem c SS) (fun c => negb (cmem c e)) l).
+    rewrite (filter_filter (fun c => negb (cmem c e)) (fun c => cmem c SS) l) in G1.
+    rewrite (filter_ext (fun x => negb (cmem x e) && cmem x SS) (fun x => cmem x SS && negb (cmem x e))) by (intros x; apply andb_comm).
+    lia.
+  Qed.
+
+  (* ---- seats *)
+  Lemma dset_new_keys (d : list (C * Z)) c v : ~ In c (map fst d) -> map fst (dset d c v) = map fst d ++ [c].
+  Proof.
+    induction d as [|[k x] d IH]; simpl; [reflexivity|]. intros H.
+    destruct (ceqb c k) eqn:E; [apply ceqb_eq in E; subst; exfalso; apply H; left; reflexivity|].
+    simpl. rewrite IH; [reflexivity|]. intros H1. apply H. right. exact H1.
+  Qed.
+
+  Lemma add_seats_keys el : forall seats, NoDup (map fst el) ->
+    (forall c, In c (map fst el) -> ~ In c (map fst seats)) ->
+    map fst (add_seats seats el) = map fst seats ++ map fst el.
+  Proof.
+    unfold add_seats. induction el as [|[c s] el IH]; intros seats Hnd Hd; simpl; [rewrite app_nil_r; reflexivity|].
+    inversion Hnd as [|? ? Hc Hnd']; subst.
+    assert (Hk : map fst (dset seats c (dget_or seats c 0 + s)%Z) = map fst seats ++ [c]).
+    { apply dset_new_keys. apply Hd. left. reflexivity. }
+    rewrite IH; [rewrite Hk, <- app_assoc; reflexivity|exact Hnd'|].
+    intros x Hx. rewrite Hk. intros Hin. apply in_app_or in Hin. destruct Hin as [Hin|[<-|[]]].
+    - apply (Hd x); [right; exact Hx|exact Hin].
+    - exact (Hc Hx).
+  Qed.
+
+  Lemma dget_or_notin (seats : list (C * Z)) c : ~ In c (map fst seats) -> dget_or seats c 0%Z = 0%Z.
+  Proof.
+    unfold dget_or. induction seats as [|[k v] t IH]; simpl; [reflexivity|]. intros H.
+    destruct (ceqb c k) eqn:E; [apply ceqb_eq in E; subst; exfalso; apply H; left; reflexivity|].
+    apply IH. intros H1. apply H. right. exact H1.
+  Qed.
+
+  (* ---- when nobody holds a quota, the coalition's resting weight is below one quota per continuing member *)
+  Lemma cnt_cons c l : cnt (c :: l) = if cmem c SS then S (cnt l) else cnt l.
+  Proof. unfold cnt. cbn [filter]. destruct (cmem c SS); reflexivity. Qed.
+
+  Lemma inject_succ_mul (m : nat) (q : Q) : inject_Z (Z.of_nat (S m)) * q == inject_Z (Z.of_nat m) * q + q.
+  Proof. rewrite Nat2Z.inj_succ. unfold Z.succ. rewrite inject_Z_plus. change (inject_Z 1) with 1. ring. Qed.
+
+  Lemma cwa_lt_quota a q : alloc_nonneg a -> 0 < q -> (forall c p, In (Some c, p) a -> wsum p < q) ->
+    cwa a <= inject_Z (Z.of_nat (cnt (keys_some a))) * q /\
+    ((0 < cnt (keys_some a))%nat -> cwa a < inject_Z (Z.of_nat (cnt (keys_some a))) * q).
+  Proof.
+    intros Hnn Hq. induction a as [|[k p] a IH]; intros Hlt.
+    - change (cnt (keys_some [])) with 0%nat. change (inject_Z (Z.of_nat 0)) with 0. cbn [cwa fold_right].
+      split; [lra|intros H; inversion H].
+    - inversion Hnn as [|? ? Hp Hnn']; subst. simpl in Hp.
+      destruct (IH Hnn') as [I1 I2]; [intros c0 p0 H; apply (Hlt c0 p0); right; exact H|].
+      cbn [cwa fold_right fst snd]. fold (cwa a).
+      destruct k as [c|]; cbn [inS].
+      + change (keys_some ((Some c, p) :: a)) with (c :: keys_some a). rewrite cnt_cons.
+        destruct (cmem c SS) eqn:Ec.
+        * rewrite inject_succ_mul.
+          destruct (cwp_bounds p Hp) as [C0 C1]. pose proof (Hlt c p (or_introl eq_refl)) as Hw.
+          split; [lra|intros _; lra].
+        * split; [lra|]. intros H. specialize (I2 H). lra.
+      + change (keys_some ((None, p) :: a)) with (keys_some a). split; [lra|]. intros H. specialize (I2 H). lra.
+  Qed.
+
+  Lemma sumS_amounts (el : list (C * Z)) (q : Q) : (forall c s, In (c, s) el -> s = 1%Z) ->
+    sumS (map (fun cs : C * Z => (fst cs, inject_Z (snd cs) * q)) el) == inject_Z (Z.of_nat (cnt (map fst el))) * q.
+  Proof.
+    induction el as [|[c s] el IH]; intros H1; simpl; [ring|].
+    rewrite IH by (intros c0 s0 H; apply (H1 c0 s0); right; exact H).
+    rewrite (H1 c s (or_introl eq_refl)). cbn [fst]. rewrite cnt_cons. destruct (cmem c SS); [|ring].
+    rewrite inject_succ_mul. change (inject_Z 1) with 1. ring.
+  Qed.
+
+  (* ================================================================ the election rule in the selector form *)
+  Lemma flat_map_nil {X Y} (f : X -> list Y) l : flat_map f l = [] -> forall x, In x l -> f x = [].
+  Proof.
+    induction l as [|y l IH]; simpl; [intros _ x []|]. intros H x [->|Hx].
+    - destruct (f x); [reflexivity|discriminate].
+    - apply IH; [|exact Hx]. destruct (f y); [exact H|discriminate].
+  Qed.
+
+  Lemma totals_key_some a c t : In (Some c, t) (totals a) -> In c (keys_some a).
+  Proof.
+    intros H. apply keys_some_akeys. rewrite <- totals_keys. apply in_map_iff. exists (Some c, t). split; [reflexivity|exact H].
+  Qed.
+
+  (* nobody elected: every continuing candidate holds less than the quota *)
+  Lemma ebq_none cf q a n_rem prev caps : c_accept_equal cf = true -> 0 < q ->
+    (forall c, In c (keys_some a) -> dget caps c = Some 1%Z /\ dget_or prev c 0%Z = 0%Z) ->
+    elect_by_quota cf (totals a) (Some q) n_rem prev caps = inl None ->
+    forall c t, In (Some c, t) (totals a) -> t < q.
+  Proof.
+    intros Hae Hq Hcap. unfold elect_by_quota.
+    set (items := sort_desc Qle_bool (map (fun kt : option C * Q => (fst kt, snd kt)) (totals a))).
+    assert (Hitems : Permutation items (totals a)).
+    { unfold items. rewrite map_ext with (g := fun x => x) by (intros [x y]; reflexivity). rewrite map_id.
+      apply sort_desc_perm. }
+    match goal with |- context [flat_map ?f items] => set (f0 := f) end.
+    destruct (flat_map f0 items) as [|s0 sel'] eqn:Esel.
+    - intros _ c t Hin. apply (Permutation_in _ (Permutation_sym Hitems)) in Hin.
+      pose proof (flat_map_nil f0 items Esel _ Hin) as Hf. unfold f0 in Hf. cbn [fst snd] in Hf.
+      destruct (Hcap c (totals_key_some a c t (Permutation_in _ Hitems Hin))) as [Hc1 Hc2].
+      rewrite Hae, Hc1, Hc2 in Hf. cbn [orb] in Hf.
+      destruct (Qlt_le_dec t q) as [Hlt|Hle]; [exact Hlt|exfalso].
+      pose proof (qfloor_div_big t q Hq Hle) as Hm.
+      rewrite Z.min_r in Hf by lia. cbn in Hf. discriminate.
+    - match goal with |- context [if ?c then _ else _] => destruct c end; [|discriminate].
+      match goal with |- context [if ?c then _ else _] => destruct c end; discriminate.
+  Qed.
+
+  (* whoever is elected gets exactly one seat *)
+  Lemma ebq_cap1 cf q a n_rem prev caps el : (forall c, In c (keys_some a) -> dget caps c = Some 1%Z) ->
+    (forall c, (0 <= dget_or prev c 0)%Z) ->
+    elect_by_quota cf (totals a) (Some q) n_rem prev caps = inl (Some el) ->
+    forall c s, In (c, s) el -> (s <= 1)%Z.
+  Proof.
+    intros Hcap Hprev. unfold elect_by_quota.
+    set (items := sort_desc Qle_bool (map (fun kt : option C * Q => (fst kt, snd kt)) (totals a))).
+    assert (Hitems : Permutation items (totals a)).
+    { unfold items. rewrite map_ext with (g := fun x => x) by (intros [x y]; reflexivity). rewrite map_id.
+      apply sort_desc_perm. }
+    match goal with |- context [flat_map ?f items] => set (f0 := f) end.
+    set (sel := flat_map f0 items).
+    assert (Hsel : forall c act ov, In (c, act, ov) sel -> (act <= 1)%Z).
+    { intros c act ov Hin. unfold sel in Hin. apply in_flat_map in Hin. destruct Hin as ([k t] & Hk & Hin).
+      unfold f0 in Hin. cbn [fst snd] in Hin. destruct k as [c0|]; [|destruct Hin].
+      destruct (c_accept_equal cf || negb (Qeq_bool _ 0)); [|destruct Hin].
+      rewrite (Hcap c0 (totals_key_some a c0 t (Permutation_in _ Hitems Hk))) in Hin.
+      destruct (0 <? _)%Z; [|destruct Hin]. destruct Hin as [Hin|[]]. injection Hin as <- <- _.
+      pose proof (Hprev c0). lia. }
+    destruct sel as [|s0 sel'] eqn:Esel; [discriminate|]. rewrite <- Esel in *. clear Esel s0 sel'.
+    set (awarded := map (fun x : C * Z * Q => (fst (fst x), snd (fst x))) sel).
+    assert (Haw : forall c s, In (c, s) awarded -> (s <= 1)%Z).
+    { intros c s Hin. unfold awarded in Hin. apply in_map_iff in Hin. destruct Hin as ([[c0 s0] ov] & Heq & Hin).
+      simpl in Heq. injection Heq as -> ->. exact (Hsel _ _ _ Hin). }
+    destruct (n_rem <? zsum (map snd awarded))%Z.
+    - destruct (existsb _ _); [discriminate|]. intros [= <-] c s Hin.
+      apply in_flat_map in Hin. destruct Hin as ([c0 s0] & Hin0 & Hin). cbn [fst snd] in Hin.
+      pose proof (Haw c0 s0 Hin0). destruct (cmem c0 _).
+      + destruct Hin as [Heq|[]]. injection Heq as <- <-. assumption.
+      + destruct (1 <? s0)%Z; [|destruct Hin]. destruct Hin as [Heq|[]]. injection Heq as <- <-. lia.
+    - intros [= <-]. exact Haw.
+  Qed.
 End PSC.
